@@ -461,6 +461,13 @@ def legacyFind (d : Doc) (r : Req) : Outcome := legacyFindOrd d (docKeys d) r
 def keyCollision (ks : List Key) : Bool :=
   ks.any (fun a => ks.any (fun b => a ≠ b && a.sufs = b.sufs))
 
+/-- NewRouter after the repair proposed for F-C09-7 (repairs/C09/F-C09-7-legacy-key-collision.diff): construction fails
+    when an `Add` would land on a node that already holds a route -/
+def legacyBuildOKStrict (d : Doc) : Bool := legacyBuildOK d && !keyCollision (docKeys d)
+
+def legacyFindOrdStrict (d : Doc) (ks : List Key) (r : Req) : Outcome :=
+  if !legacyBuildOKStrict d then .buildError else legacyFindOrd d ks r
+
 def rotations (l : List α) : List (List α) := (List.range l.length).map (fun j => l.drop j ++ l.take j)
 
 /-- the outcomes FindRoute can have over the insertion orders (every key is inserted last in one rotation, and the
